@@ -39,6 +39,7 @@ def run(ctx):
     r86(ctx)
     r89_event_type_identity(ctx)
     from ..statrules import shared_class_state
+    r89_listener_identity(ctx)
     shared_class_state(ctx, 'R8.8', sorted(c for c, ci in ctx.prog.classes.items() if ci.module.name == 'pubsub'),
                        'a listener subscribed to one producer is notified by every producer (and removing it from one removes it from all)')
     ctx.rule('R8.7', 'refused subscribe / unsubscribe / fire calls change nothing (refuse-before-effect)')
@@ -876,3 +877,35 @@ def r89_event_type_identity(ctx):
                             f'{c} defines {m}: two distinct event types that compare equal share one entry of the listener map, so an event reaches listeners of another '
                             'type, a second subscription is swallowed as a duplicate and unsubscribing one type unsubscribes the other', where=f'{c}.{m}')
     ctx.floor('R8.9', 'EventType comparison slots examined', n, 2)
+
+
+def r89_listener_identity(ctx, rule='R8.9'):
+    """Subscriptions are kept in lists and looked up with `in` / `remove`, i.e. with `==`: an object that can be subscribed must compare by
+    identity, or two different subscribers that happen to be equal are taken for one (the second is never subscribed, removing one removes
+    the other)."""
+    prog = ctx.prog
+    ctx.rule(rule, 'classes that can be subscribed as listeners compare by identity (no value-based __eq__ along their MRO before object)')
+    n = 0
+    for cname, ci in sorted(prog.classes.items()):
+        mro = prog.mro(cname)
+        if not any(k in ('EventListener', 'EventListenerInterface') for k in mro) or cname in ('EventListener', 'EventListenerInterface'):
+            continue
+        n += 1
+        culprit = None
+        for k in mro:
+            kc = prog.classes.get(k)
+            if kc is None:
+                continue
+            if '__eq__' in kc.assigns:
+                break                                   # `__eq__ = object.__eq__` (or another explicit choice) in the class body
+            if '__eq__' in kc.methods:
+                culprit = (kc, kc.methods['__eq__'])
+                break
+        ctx.ob(rule, cname, culprit is None, sample=f'{cname}: __eq__ resolves to ' + (f'{culprit[0].name}.__eq__ (value based)' if culprit else 'identity'))
+        if culprit is not None:
+            ctx.finding(rule, f'{cname}:value-equality', ci, ci.node,
+                        f'{cname} can be subscribed as a listener but compares by value ({culprit[0].name}.__eq__ is found first along its MRO): add_listener keeps '
+                        f'subscribers in a list and tests `listener in list`, so a second {cname} that is equal to one already subscribed (e.g. still empty, same name) '
+                        f'is silently not subscribed -- it never hears of warm-up or replication end -- and remove_listener removes whichever equal object comes first',
+                        where=cname)
+    ctx.floor(rule, 'listener classes', n, 4)
